@@ -126,6 +126,20 @@ def cases(tier, seed):
                                timer='asis', route='history:' + hname)
 
 
+_cells_cases = cases
+
+
+def cases(tier, seed):      # noqa: F811
+    for c in _cells_cases(tier, seed):
+        yield c
+    # cells under simultaneous events: a PDU from the peer and a primitive from the local user
+    # become pending in the same turn of the provider loop - each must still get the action of
+    # ITS cell, with ITS PDU / primitive (C05's concurrent bursts, run here for the table)
+    for i in range(200 if tier == 'quick' else 4000):
+        yield dict(role='acceptor' if i % 2 else 'requestor', state='-', event='-', var='-',
+                   timer='asis', route='simultaneous', seed=seed * 100003 + i)
+
+
 def _lib_pdu(raw):
     from pynetdicom2 import dulprovider
     cls, _ = dulprovider.PDU_TYPES[raw[0]]
@@ -185,6 +199,18 @@ def _establish(rig, role, state, route):
 
 
 def run_case(case):
+    if case['route'] == 'simultaneous':
+        from . import c05
+        inner = case.get('inner') or dict(role=case['role'], walk=8, mode='concurrent',
+                                          seed='c04sim/%s' % case['seed'])
+        r = c05.run_concurrent(inner)
+        for v_ in r.get('violations', []):
+            v_['sig'] = 'C04 simultaneous-events ' + v_['sig'].replace('C05 ', '')
+            if 'explicit' in v_:
+                # the burst made explicit (so that the replay does not depend on the walk)
+                v_['explicit'] = dict(case, inner=v_['explicit'])
+        r['sets'] = {}
+        return r
     from pynetdicom2 import fsm
     role, state, event, var, route = (case['role'], case['state'], case['event'], case['var'],
                                       case['route'])
